@@ -145,7 +145,7 @@ func RunFault(sc FaultScenario) (fs []Finding, trace string, n1, n2 int) {
 	// prior state through a fault-free connection
 	s0 := w.Connect(0)
 	had := sc.Prior != "absent"
-	if had {
+	if had && sc.Prior != "own" {
 		s0.Do(wire.Op{Kind: "set", Key: fKey, Val: fOld, Flags: fOldF, Opaque: 1})
 		if sc.Prior == "l2only" {
 			for _, k := range w.L1.Keys() {
@@ -171,16 +171,43 @@ func RunFault(sc FaultScenario) (fs []Finding, trace string, n1, n2 int) {
 			}
 		}
 	}
+	own := sc.Prior == "own"
+	if own {
+		w.ConnHook = nil
+	}
 	a := w.Connect(sc.Cmd.Port)
 	w.ConnHook = nil
+	b1, b2 := 0, 0
+	if own {
+		// the faulted connection itself wrote the value the command then meets: fault positions
+		// count from the first backend request of the faulted command
+		a.Do(wire.Op{Kind: "set", Key: fKey, Val: fOld, Flags: fOldF, Opaque: 1})
+		b1 = a.L1c.NReq
+		if a.L2c != nil {
+			b2 = a.L2c.NReq
+		}
+		for _, d := range sc.Devs {
+			cn, b := a.L1c, b1
+			if d.Tier == 2 {
+				cn, b = a.L2c, b2
+			}
+			if cn == nil {
+				continue
+			}
+			if cn.Faults == nil {
+				cn.Faults = map[int]fakemc.Fault{}
+			}
+			cn.Faults[b+d.Idx] = d.Fault
+		}
+	}
 	cmd := sc.Cmd
 	cmd.Opaque = 0x7000
 	a.Do(cmd)
-	n1 = a.L1c.NReq
+	n1 = a.L1c.NReq - b1
 	if a.L2c != nil {
-		n2 = a.L2c.NReq
+		n2 = a.L2c.NReq - b2
 	}
-	closed := a.Ended
+	closed := a.Ended && a.Cli.Closed() // the loop ended and the server really closed the client socket
 	// a further command on the same connection, if the server kept it open: the backend streams
 	// must still be in sync
 	sameConn := false
@@ -199,6 +226,9 @@ func RunFault(sc FaultScenario) (fs []Finding, trace string, n1, n2 int) {
 	f.Hangup()
 
 	ar := a.RepliesLenient()
+	if own && len(ar) > 0 {
+		ar = ar[1:]
+	}
 	br, _, _ := by.Replies()
 	fr, _, _ := f.Replies()
 	short := func(r wire.Reply) string {
@@ -387,8 +417,11 @@ func runC10(c *rt.Ctx) {
 	item := 0
 	for _, cfg := range cfgs {
 		for _, port := range cfg.Ports() {
-			for _, prior := range []string{"absent", "both", "l2only"} {
+			for _, prior := range []string{"absent", "both", "l2only", "own"} {
 				if prior == "l2only" && cfg.Orca == "l1only" {
+					continue
+				}
+				if prior == "own" && (port != 0 || (cfg.Proto == "text" && !c.Thorough())) {
 					continue
 				}
 				for _, cmd := range faultCmds(cfg) {
